@@ -269,6 +269,8 @@ class EngineTyper:
 
     def _vtype(self, x, env, memo):
         ir = self.ir
+        if isinstance(x, ir.Join):                                   # front-end bookkeeping only: renders as its virtual_ir
+            return self.vtype(x.virtual_ir, env, memo)
         if isinstance(x, ir.ProjectedTopLevelReference):            # renders as (GetField f (Ref name))
             base = env.get(x.ref.name)
             if base is None:
@@ -538,6 +540,17 @@ class EngineTyper:
         if type(x.reader).__name__ == 'MatrixRangeReader' and x.drop_row_uids and x.drop_col_uids:
             # MatrixRangeReader.fullMatrixTypeWithoutUIDs
             return self.M(self.S([]), ['col_idx'], self.S([('col_idx', hl.tint32)]), ['row_idx'], self.S([('row_idx', hl.tint32)]), self.S([]))
+        if type(x.reader).__name__ == 'MatrixRangeReader':
+            # Parser.scala "MatrixRead": requested type = reader.fullMatrixType (MatrixReader.fullMatrixType: rowType.appendKey(
+            # rowUIDFieldName = "__row_uid", rowUIDType = TInt64), colType.appendKey(colUIDFieldName = "__col_uid", colUIDType = TInt64))
+            # with deleteKey of the uid field(s) named by DropRowUIDs / DropColUIDs
+            row = self.S([('row_idx', hl.tint32)])
+            col = self.S([('col_idx', hl.tint32)])
+            if not x.drop_row_uids:
+                row = self.s_append(row, '__row_uid', hl.tint64)
+            if not x.drop_col_uids:
+                col = self.s_append(col, '__col_uid', hl.tint64)
+            return self.M(self.S([]), ['col_idx'], col, ['row_idx'], row, self.S([]))
         raise NotTranscribed('reader ' + type(x.reader).__name__)
 
     def _msame_as_child(self, x):
